@@ -19,7 +19,8 @@ LEVEL = "exploration"
 RULE = (
     "Hypothesis generates operation histories (<=30 ops quick, <=60 thorough) for Led, RGBLed, Servo (generated bounds) "
     "and DCMotor; every public method is an operation, arguments come from in-range, boundary and out-of-range ints, "
-    "floats (incl. +-inf, -0.0, excl. NaN) and bools; sleep is replaced through the package-level indirection by a "
+    "floats (incl. +-inf, -0.0, excl. NaN) and bools, and a third of the operations re-use exactly the arguments of an earlier operation of the history "
+    "(blink in the colour already shown, ramp to the present speed, ...); sleep is replaced through the package-level indirection by a "
     "recorder that also snapshots the object. Non-trivial = a history in which a failing call is followed by a "
     "successful state-changing call, or >=3 successful calls on the object; distinct = distinct op list."
 )
@@ -476,6 +477,30 @@ def plan(tier):
     return units
 
 
+ECHO_KEYS = {"rgb": [("red", "green", "blue")], "led": [("value",)], "servo": [("value",), ("frac",)], "motor": [("value",), ("speed",), ("target_speed",)]}
+
+
+def echo_ops(kind, ops, picks):
+    """Coincidences a random draw almost never produces: an operation is given exactly the arguments an earlier operation of the history used
+    (blink in the colour the LED already shows, fade to the present colour, ramp to the present speed, write of the present angle)."""
+    ops = [dict(o) for o in ops]
+    groups = ECHO_KEYS.get(kind, [])
+    for i, o in enumerate(ops):
+        if i == 0 or i >= len(picks) or not picks[i][0]:
+            continue
+        for keys in groups:
+            if all(k in o for k in keys):
+                # single-valued groups of one device are interchangeable (set_speed value / backward speed / ramp target_speed)
+                alts = [keys] if len(keys) > 1 else [g for g in groups if len(g) == 1]
+                donors = [(p, g) for p in ops[:i] for g in alts if all(k in p for k in g)]
+                if donors:
+                    src, g = donors[picks[i][1] % len(donors)]
+                    for k, gk in zip(keys, g):
+                        o[k] = src[gk]
+                break
+    return ops
+
+
 def evaluate(kind, info, ops):
     try:
         okc, fto = KINDS[kind][1](ops, info)
@@ -491,8 +516,11 @@ def run_shard(name, seed, tier, kind, n, maxops):
 
     @hseed(seed)
     @hyp_settings(n)
-    @given(info_st, st.lists(ops_st, min_size=1, max_size=maxops))
-    def prop(info, ops):
+    @given(info_st, st.lists(ops_st, min_size=1, max_size=maxops), st.lists(st.tuples(st.integers(0, 2).map(lambda v: v == 0), st.integers(0, 7)), max_size=maxops))
+    def prop(info, ops, picks):
+        ops = echo_ops(kind, ops, picks)
+        if any(p[0] for p in picks[1:len(ops)]):
+            r.count(f"{kind}:history_with_echoed_arguments")
         fl, okc, fto = evaluate(kind, info, ops)
         r.case({"kind": kind, "info": info, "ops": ops}, fto >= 1 or okc >= 3)
         if fto:
